@@ -52,6 +52,13 @@ def ofFOut : Stream.FOut → Option JV
   | .ok outs => some (.arr outs)
   | .error _ => none
 
+/-- does a result of `Spec.eval` agree with a value-level function's answer: exactly that one value
+    and a normal end — or, for `none`, nothing emitted and a jq error -/
+def Agrees (r : Res) (o : Option JV) : Prop :=
+  match o with
+  | some w => r.outs.map (·.v) = [w] ∧ r.stop = .done
+  | none => r.outs = [] ∧ ∃ e, r.stop = .err e
+
 /-! ### the queries (as the real parser dumps them) -/
 
 /-- `to_entries` -/
